@@ -151,6 +151,24 @@ C09/ProofsC.vos C09/ProofsC.vok C09/ProofsC.required_vos: C09/ProofsC.v C09/Mode
 C09/Properties.vo C09/Properties.glob C09/Properties.v.beautified C09/Properties.required_vo: C09/Properties.v C09/Model.vo C09/Proofs.vo C09/ProofsC.vo
 C09/Properties.vio: C09/Properties.v C09/Model.vio C09/Proofs.vio C09/ProofsC.vio
 C09/Properties.vos C09/Properties.vok C09/Properties.required_vos: C09/Properties.v C09/Model.vos C09/Proofs.vos C09/ProofsC.vos
+C10/Corr.vo C10/Corr.glob C10/Corr.v.beautified C10/Corr.required_vo: C10/Corr.v Common/Ops.vo Common/Vec.vo Common/Out.vo C10/Model.vo
+C10/Corr.vio: C10/Corr.v Common/Ops.vio Common/Vec.vio Common/Out.vio C10/Model.vio
+C10/Corr.vos C10/Corr.vok C10/Corr.required_vos: C10/Corr.v Common/Ops.vos Common/Vec.vos Common/Out.vos C10/Model.vos
+C10/Examples.vo C10/Examples.glob C10/Examples.v.beautified C10/Examples.required_vo: C10/Examples.v Common/Ops.vo Common/Vec.vo C10/Model.vo C10/Proofs.vo
+C10/Examples.vio: C10/Examples.v Common/Ops.vio Common/Vec.vio C10/Model.vio C10/Proofs.vio
+C10/Examples.vos C10/Examples.vok C10/Examples.required_vos: C10/Examples.v Common/Ops.vos Common/Vec.vos C10/Model.vos C10/Proofs.vos
+C10/Model.vo C10/Model.glob C10/Model.v.beautified C10/Model.required_vo: C10/Model.v Common/Ops.vo Common/Vec.vo
+C10/Model.vio: C10/Model.v Common/Ops.vio Common/Vec.vio
+C10/Model.vos C10/Model.vok C10/Model.required_vos: C10/Model.v Common/Ops.vos Common/Vec.vos
+C10/Proofs.vo C10/Proofs.glob C10/Proofs.v.beautified C10/Proofs.required_vo: C10/Proofs.v Common/Ops.vo Common/Vec.vo Common/VecLemmas.vo C10/Model.vo
+C10/Proofs.vio: C10/Proofs.v Common/Ops.vio Common/Vec.vio Common/VecLemmas.vio C10/Model.vio
+C10/Proofs.vos C10/Proofs.vok C10/Proofs.required_vos: C10/Proofs.v Common/Ops.vos Common/Vec.vos Common/VecLemmas.vos C10/Model.vos
+C10/Properties.vo C10/Properties.glob C10/Properties.v.beautified C10/Properties.required_vo: C10/Properties.v Common/Ops.vo Common/Vec.vo C10/Model.vo C10/Proofs.vo C10/Reorder.vo
+C10/Properties.vio: C10/Properties.v Common/Ops.vio Common/Vec.vio C10/Model.vio C10/Proofs.vio C10/Reorder.vio
+C10/Properties.vos C10/Properties.vok C10/Properties.required_vos: C10/Properties.v Common/Ops.vos Common/Vec.vos C10/Model.vos C10/Proofs.vos C10/Reorder.vos
+C10/Reorder.vo C10/Reorder.glob C10/Reorder.v.beautified C10/Reorder.required_vo: C10/Reorder.v Common/Ops.vo Common/Vec.vo C10/Model.vo
+C10/Reorder.vio: C10/Reorder.v Common/Ops.vio Common/Vec.vio C10/Model.vio
+C10/Reorder.vos C10/Reorder.vok C10/Reorder.required_vos: C10/Reorder.v Common/Ops.vos Common/Vec.vos C10/Model.vos
 C11/Corr.vo C11/Corr.glob C11/Corr.v.beautified C11/Corr.required_vo: C11/Corr.v Common/Ops.vo Common/Vec.vo Common/Out.vo C07/Model.vo C11/Model.vo
 C11/Corr.vio: C11/Corr.v Common/Ops.vio Common/Vec.vio Common/Out.vio C07/Model.vio C11/Model.vio
 C11/Corr.vos C11/Corr.vok C11/Corr.required_vos: C11/Corr.v Common/Ops.vos Common/Vec.vos Common/Out.vos C07/Model.vos C11/Model.vos
